@@ -87,6 +87,13 @@ def run_case(spec, ctx):
         return bool(rg.pvars(P) & set(S))
     if rg.has(E, _sbp):
         top += "+sbp-dep"
+    if rg.has(E, rg.is_boundary):
+        try:      # operand boundaries that touch along a shared piece / end point: known finding D21
+            pe_t = build.params_env({n: prows[n][:1] for n in prows})
+            if geo.touching(E, pe_t, 1e-4 * geo.scale_of(E, pe_t)):
+                top += "+touching"
+        except Exception:      # noqa: BLE001 - classification only
+            pass
     R = sorted(fv - set(S))
     # all-parameter rows: fixed variables take their row-0 value in every row
     prows_all = {n: ([prows[n][0]] * k if n in S else prows[n]) for n in prows}
